@@ -110,7 +110,9 @@ class Stream:
         # DEDENT tokens are zero-width and carry no text: they are a function of the INDENT / line structure that the
         # line clauses see, and appear or vanish *after* a block that changes between one-line and indented form
         self.toks = [t for t in self.toks if t.type != tokenize.DEDENT]
-        self.ids = [tt.tok(tokenize.tok_name[t.type], t.string) for t in self.toks]
+        # (the NEWLINE that tokenize synthesises at an end of file without line terminator has the text '')
+        self.ids = [tt.tok(tokenize.tok_name[t.type], '\n' if t.type in (tokenize.NEWLINE, tokenize.NL) else t.string)
+                    for t in self.toks]
         self.sl = [t.start[0] for t in self.toks]
         self.el = [t.start[0] + t.string.count('\n') if t.type not in (tokenize.NEWLINE, tokenize.NL) else t.start[0]
                    for t in self.toks]
@@ -313,12 +315,12 @@ def elem_spans(st: Stream, node, field):
                 lo = st.back_to(sv[0], ('**',))
                 if not lo:
                     return None
-                out.append({'lo': lo, 'hi': sv[1], 'blk': False})
+                out.append({'lo': lo, 'hi': st.ext_pars(*sv)[1], 'blk': False})
             else:
                 sk = node_span(st, k)
                 if sk is None:
                     return None
-                out.append({'lo': sk[0], 'hi': sv[1], 'blk': False})
+                out.append({'lo': st.ext_pars(*sk)[0], 'hi': st.ext_pars(*sv)[1], 'blk': False})
         return out
     else:
         vals = getattr(node, field, None)
@@ -380,9 +382,21 @@ def trivia_json(tv):
     return {'n': -1, 'a': [_tv_part(tv)]}
 
 
-def code_tokens(tt: TokTables, srcs):
-    """(COMMENT ids, ids of all other non-layout tokens) of the new code."""
+def code_tokens(tt: TokTables, srcs, elems=None):
+    """(COMMENT ids, ids of all other non-layout tokens) of the new code; the code may be passed as a pure AST, so the
+    tokens of CPython's own rendering (`ast.unparse`) of each element count as tokens of the new code as well."""
     com, oth = [], set()
+    rendered = []
+    for el in elems or ():
+        for node in el:
+            if isinstance(node, ast.AST):
+                try:
+                    rendered.append(ast.unparse(node))
+                except Exception:  # noqa: BLE001
+                    pass
+    for s in rendered:
+        toks = tokenize_src(s) or tokenize_src('(' + s + ')') or []
+        oth |= {tt.tok(tokenize.tok_name[t.type], t.string) for t in toks if t.type not in SKIP_TYPES}
     for s in srcs:
         toks = tokenize_src(s)
         if toks is None:
@@ -393,7 +407,7 @@ def code_tokens(tt: TokTables, srcs):
     return com, sorted(oth)
 
 
-def record(tt: TokTables, plan, pre_src: str, post_src: str) -> dict:
+def record(tt: TokTables, plan, pre_src: str, post_src: str, elems=None) -> dict:
     """Token facts of one executed edit (see module docstring)."""
     bad = {'ok': False}
     pre = Stream(pre_src, tt)
@@ -416,7 +430,7 @@ def record(tt: TokTables, plan, pre_src: str, post_src: str) -> dict:
     rank = field_rank(type(host).__name__, ('args.' + field) if isinstance(node, ast.arguments) else
                       {'_body': 'body', '_args': 'args', '_bases': 'bases'}.get(
                           field, ('left' if isinstance(node, ast.Compare) else 'keys') if field == '_all' else field))
-    newc, newk = code_tokens(tt, plan.srcs)
+    newc, newk = code_tokens(tt, plan.srcs, elems)
     uo, uo_ok = [0] * len(post.toks), False
     try:
         ptree = ast.parse(post_src)
@@ -454,7 +468,7 @@ def make_hooks(tt: TokTables):
         tk = dict(EMPTY)
         if ev['outcome'] == 'ok':
             try:
-                tk = dict(EMPTY, **record(tt, plan, pre_src, root.src))
+                tk = dict(EMPTY, **record(tt, plan, pre_src, root.src, getattr(o, 'elems', None)))
             except RecursionError:
                 pass
         ev['tk'] = tk
